@@ -186,6 +186,24 @@ def r2_receive_loop(ctx, f, rep):
         if n:
             break
     rep.floor('C16-R2', n, 1, 'handle_custom_broadcasts call')
+    # every datagram accepted from an active sender has its custom section shown to the handler - whatever the updates it
+    # carried did to our own connection state
+    n = 0
+    for p in ctx.paths(f, hd, 'none'):
+        if p.end != 'return':
+            continue
+        am = [i for i, e in enumerate(p.events) if e['kind'] == 'call' and e['res'] == 'Foca::apply_many']
+        if not am:
+            continue
+        okmap = q.try_ok_of(p, len(p.events))
+        if okmap.get(p.events[am[0]]['id']) != 'ok':
+            continue
+        n += 1
+        hc_ = [i for i, e in enumerate(p.events) if e['kind'] == 'call' and e['res'] == 'Foca::handle_custom_broadcasts']
+        rep.check(len(hc_) == 1 and hc_[0] > am[0], 'C16-R2', hd.nname, 'after the updates were applied the custom section is '
+                  'always handed to handle_custom_broadcasts (exactly once), also when the instance just stopped being '
+                  'connected', construct='custom-section-always-handled')
+    rep.floor('C16-R2', n, 10, 'handle_data paths past apply_many')
 
 
 def r3_gating(ctx, f, rep):
